@@ -4,7 +4,7 @@
    for both trees (flags fc / fb); "exactly once at Close" holds only with the repaired callback
    ([callback true _]): the pinned callback is refuted below. *)
 From Coq Require Import NArith ZArith List Bool.
-From StunV Require Import Base.ListAux Base.Bytes Model.Agent Model.Client Proofs.ClientProofs Proofs.ClientInvProofs.
+From StunV Require Import Base.ListAux Base.Bytes Model.Agent Model.Client Proofs.ClientProofs Proofs.ClientInvProofs Proofs.ClientSyncProofs Proofs.ClientExactProofs.
 Import ListNotations.
 Open Scope N_scope.
 
@@ -79,3 +79,46 @@ Example C10_start_error_refuted_on_pinned_tree :
   count_invokes 0 (snd (c_close true true (fst pinned))) = 1 /\
   count_invokes 0 (snd (c_close true true (fst fixed))) = 0 /\ c_T (fst fixed) = [].
 Proof. vm_compute. repeat split. Qed.
+
+(* ---- exactly once ---- *)
+(* [sinv]: every registered transaction is known to the agent, and a closed client has none; an invariant
+   of every history, also with foreign registrations in a shared agent and with Close racing events *)
+Theorem C10_sync_invariant : forall fb tid_of ops c, sinv c -> sinv (fst (c_run true fb tid_of c ops)).
+Proof. exact run_sinv. Qed.
+Theorem C10_sync_invariant_initial : forall rto maxA cc fb, sinv (new_client rto maxA cc fb).
+Proof. exact sinv_new. Qed.
+Print Assumptions C10_sync_invariant.
+
+(* Close (in any of its interleavings) leaves no transaction registered *)
+Theorem C10_closed_means_all_completed : forall fb tid_of ops rto maxA cc fbh,
+  let c := fst (c_run true fb tid_of (new_client rto maxA cc fbh) ops) in
+  c_closed c = true -> c_T c = [].
+Proof. exact closed_means_all_completed. Qed.
+
+(* per operation and per already allocated instance: (invocations) + (registered after) = (registered before):
+   a handler runs exactly when its transaction leaves the table *)
+Theorem C10_invoked_iff_unregistered : forall fc fb tid_of c o i, tinv c -> i < c_next_inst c ->
+  let '(c', ob) := c_step fc fb tid_of c o in count_invokes i ob + alive c' i = alive c i.
+Proof. exact step_alive. Qed.
+Print Assumptions C10_invoked_iff_unregistered.
+
+(* EXACTLY ONCE: a registered transaction (its Start / Do returned nil) is invoked exactly once in every
+   continuation of the history that ends with the client closed — whatever responses, duplicates,
+   garbage, ticks, write failures, foreign registrations and Close interleavings come in between *)
+Theorem C10_exactly_once_by_close : forall fb tid_of ops c i, tinv c -> sinv c -> lives (c_T c) i = true ->
+  let '(c', tr) := c_run true fb tid_of c ops in
+  c_closed c' = true -> count_invokes i (concat tr) = 1.
+Proof. exact exactly_once_by_close. Qed.
+Print Assumptions C10_exactly_once_by_close.
+
+Example C10_exactly_once_nonvacuous :
+  let c0 := new_client 100 7 true None in
+  let c1 := fst (c_start c0 1 [1;2;3] (Some 5)) in
+  tinv c1 /\ sinv c1 /\ lives (c_T c1) 0 = true /\
+  count_invokes 0 (concat (snd (c_run true true (fun _ => 1) c1 [CTick 150; CFail [0]; CTick 400; CTickRace 900]))) = 1.
+Proof.
+  cbv zeta. split; [|split; [|split; [reflexivity | vm_compute; reflexivity]]].
+  - pose proof (step_budget true true (fun _ => 1) (new_client 100 7 true None) (CStart 1 [1;2;3] 5) (tinv_new _ _ _ _)) as H.
+    cbn [c_step] in H. destruct (c_start _ _ _ _) as [c' ob]. apply H.
+  - apply (step_sinv true (fun _ => 1) (new_client 100 7 true None) (CStart 1 [1;2;3] 5)). apply sinv_new.
+Qed.
